@@ -239,9 +239,9 @@ def gen_task_class():
     return _GenTask
 
 
-def make_task(specs, objective="zero", data=None, **kw):
+def make_task(specs, objective="zero", data=None, names=None, **kw):
     """a Task over the given declarations (variables named v0, v1, …) with the named objective (default: constant 0)."""
     cls = gen_task_class()
     d = {"objective": objective}
     d.update(data or {})
-    return cls(variables=[make_variable(s, f"v{i}") for i, s in enumerate(specs)], data=d, **kw)
+    return cls(variables=[make_variable(s, names[i] if names else f"v{i}") for i, s in enumerate(specs)], data=d, **kw)
